@@ -47,9 +47,9 @@ func VP_smoke_eval() {
 		r := NewRunner()
 		r.SetThis(map[string]interface{}{
 			"a": 3, "b": int64(4), "s": "hi", "n": nil, "f": 2.5,
-			"p": vpPerson{Name: "Ann", Age: 30, secret: 1},
-			"m": map[string]interface{}{"k": "v"},
-			"d": time.Date(2024, time.March, 9, 14, 5, 6, 0, time.UTC),
+			"p":       vpPerson{Name: "Ann", Age: 30, secret: 1},
+			"m":       map[string]interface{}{"k": "v"},
+			"d":       time.Date(2024, time.March, 9, 14, 5, 6, 0, time.UTC),
 			"hostAdd": func(x, y int) (int, error) { return x + y, nil },
 			"hostCat": func(parts ...string) (string, error) {
 				s := ""
